@@ -211,11 +211,12 @@ static void emit(json_t *ev)
 	pthread_mutex_unlock(&out_mu);
 	free(s);
 }
+static int in_lib;	/* > 0 while a call into libjwt is in progress (LIB / LIBV) */
 static void emit_abort(const char *why)
 {
 	char buf[512];
-	int n = snprintf(buf, sizeof buf, "{\"e\":\"Abort\",\"case\":\"%s\",\"opi\":%d,\"why\":\"%s\"}\n",
-			 cur_case, cur_op, why);
+	int n = snprintf(buf, sizeof buf, "{\"e\":\"Abort\",\"case\":\"%s\",\"opi\":%d,\"why\":\"%s\",\"inlib\":%d}\n",
+			 cur_case, cur_op, why, in_lib > 0 || cur_op >= 0);	/* an operation of the script (or the release of its objects) is in progress */
 	if (write(out_fd, buf, n) < 0) {}
 }
 static volatile sig_atomic_t aborting;
@@ -749,7 +750,7 @@ static json_t *project_mat_(const jwk_item_t *it, json_t *kd)
 	json_t *m = json_object();
 	const char *pem = jwks_item_pem(it);
 	const unsigned char *ob = NULL; size_t ol = 0;
-	int pub = 0, prv = 0, pemok = 0, pempriv = 0, octok = 0;
+	int pub = 0, prv = 0, pemok = 0, pempriv = 0, octok = 0, pss = -1;
 	const char *kty = kd ? jstr(kd, "kty", "~") : "~";
 	if (jwks_item_kty(it) == JWK_KEY_TYPE_OCT) {
 		if (!jwks_item_key_oct(it, &ob, &ol) && kd && !strcmp(kty, "oct")) {
@@ -769,12 +770,15 @@ static json_t *project_mat_(const jwk_item_t *it, json_t *kd)
 		else k = PEM_read_bio_PUBKEY(b, NULL, NULL, NULL);
 		BIO_free(b);
 		if (k) pemok = 1;
+		if (k && (EVP_PKEY_get_base_id(k) == EVP_PKEY_RSA || EVP_PKEY_get_base_id(k) == EVP_PKEY_RSA_PSS))
+			pss = EVP_PKEY_get_base_id(k) == EVP_PKEY_RSA_PSS;
 		if (k && !ref) { EVP_PKEY_free(k); k = NULL; }
 		if (k) {
 			/* EVP_PKEY_eq compares public components (and parameters) */
-			if (EVP_PKEY_get_base_id(k) == EVP_PKEY_get_base_id(ref) ||
-			    (EVP_PKEY_get_base_id(k) == EVP_PKEY_RSA_PSS && EVP_PKEY_get_base_id(ref) == EVP_PKEY_RSA)) {
-				if (EVP_PKEY_get_base_id(k) == EVP_PKEY_RSA_PSS) {
+			/* rsaEncryption and id-RSASSA-PSS keys: the numbers are compared here, the type is reported as "pss" */
+			int kb = EVP_PKEY_get_base_id(k), rb = EVP_PKEY_get_base_id(ref);
+			if (kb == rb || ((kb == EVP_PKEY_RSA_PSS || kb == EVP_PKEY_RSA) && (rb == EVP_PKEY_RSA || rb == EVP_PKEY_RSA_PSS))) {
+				if (kb == EVP_PKEY_RSA_PSS || rb == EVP_PKEY_RSA_PSS) {
 					BIGNUM *n1 = NULL, *n2 = NULL, *e1 = NULL, *e2 = NULL;
 					EVP_PKEY_get_bn_param(k, OSSL_PKEY_PARAM_RSA_N, &n1);
 					EVP_PKEY_get_bn_param(ref, OSSL_PKEY_PARAM_RSA_N, &n2);
@@ -819,6 +823,7 @@ static json_t *project_mat_(const jwk_item_t *it, json_t *kd)
 	json_object_set_new(m, "pempriv", json_integer(pempriv));
 	json_object_set_new(m, "pub", json_integer(pub));
 	json_object_set_new(m, "prv", json_integer(prv));
+	if (pss >= 0) json_object_set_new(m, "pss", json_integer(pss));
 	return m;
 }
 
@@ -1065,7 +1070,7 @@ static void record_fault_site(size_t n)
 /* --track-alloc: the application's allocator is not libc's.  Every block handed out through jwt_set_alloc's
  * malloc is remembered; a block passed to its free from inside a library call that it never handed out was
  * allocated by someone else (OpenSSL, libc directly): with a real custom allocator that corrupts the heap. */
-static int track_alloc, in_lib;
+static int track_alloc;
 #define TRK_N (1u << 21)
 /* addresses are kept complemented, so that LeakSanitizer does not take the table for references to the blocks */
 static uintptr_t trk_tab[TRK_N];
@@ -1085,7 +1090,19 @@ static int trk_del(void *p)
 		if (trk_tab[i] == v) { trk_tab[i] = 1; return 1; }
 	return 0;
 }
-static void *drv_malloc_raw(size_t n) { void *p = malloc(n); if (p && track_alloc) trk_add(p); return p; }
+/* what a fresh block holds is nobody's business: under --track-alloc it changes from block to block (blank, NUL,
+ * '}', 'A', 0xbe, '"' in turn, restarted at every case so that a case replays alone as it ran in a batch) */
+static unsigned fill_turn;
+static void *drv_malloc_raw(size_t n)
+{
+	void *p = malloc(n);
+	if (p && track_alloc) {
+		static const unsigned char fill[] = {0x20, 0x00, 0x7d, 0x41, 0xbe, 0x22};
+		memset(p, fill[fill_turn++ % sizeof fill], n);
+		trk_add(p);
+	}
+	return p;
+}
 static void *drv_malloc(size_t n)
 {
 	if (alloc_armed) {
@@ -1371,7 +1388,7 @@ static char *members_text(json_t *lst, int pretty)
 static char *segment_for(const char *cls, json_t *members, const char *algspell, int ishdr)
 {
 	char *js = NULL, *seg;
-	if (!strcmp(cls, "obj") || !strcmp(cls, "objws")) {
+	if (!strcmp(cls, "obj") || !strcmp(cls, "objws") || !strcmp(cls, "objnc")) {
 		json_t *lst = members ? json_deep_copy(members) : json_array();
 		if (ishdr && algspell && strcmp(algspell, "~")) {
 			/* alg spelling classes: "#int", "#null", "#bool", "#arr", "#obj" are non-strings */
@@ -1410,7 +1427,18 @@ static char *segment_for(const char *cls, json_t *members, const char *algspell,
 	else if (!strcmp(cls, "empty")) return strdup("");
 	else if (!strcmp(cls, "dupkeys")) js = strdup("{\"alg\":\"none\",\"alg\":\"HS256\"}");
 	else die("segment class %s", cls);
+	if (!strcmp(cls, "objnc") && strlen(js) % 3 == 0) {	/* make room for unused bits: JSON may end in white space */
+		js = realloc(js, strlen(js) + 2);
+		strcat(js, " ");
+	}
 	seg = b64u_enc((unsigned char *)js, strlen(js));
+	if (!strcmp(cls, "objnc") && seg[0]) {
+		/* the same octets, not canonically encoded: the bits of the last character that encode nothing are not zero */
+		static const char abc[] = "ABCDEFGHIJKLMNOPQRSTUVWXYZabcdefghijklmnopqrstuvwxyz0123456789-_";
+		char *last = seg + strlen(seg) - 1;
+		const char *q = strchr(abc, *last);
+		if (q) *last = abc[(q - abc) | (strlen(js) % 3 == 1 ? 2 : 1)];
+	}
 	free(js);
 	return seg;
 }
@@ -1757,6 +1785,17 @@ static int obj_cb(jwt_t *jwt, jwt_config_t *config)
 	jwt_config_t c2 = *config;
 	int r;
 	int armed = alloc_armed;
+	if (!o) {
+		/* called although the application took the callback away (its context is gone): like an application's
+		 * callback that does not need its context it carries on - and leaves a mark that the specification's token
+		 * does not have */
+		jwt_value_t jv;
+		jwt_set_SET_BOOL(&jv, "callback-ran-after-removal", 1);
+		jv.replace = 1;
+		jwt_claim_set(jwt, &jv);
+		jwt_header_set(jwt, &jv);
+		return 0;
+	}
 	alloc_armed = 0;
 	cx.prog = o->cb; cx.res = o->cbres ? o->cbres : (o->cbres = json_array()); cx.ran = 0;
 	alloc_armed = armed;
@@ -1844,7 +1883,12 @@ static json_t *verify_res(struct cfgobj *o, const char *tok)
 	int ret;
 	if (o->cbres) { json_decref(o->cbres); o->cbres = NULL; }
 	o->cbran = 0;
-	ret = LIB(jwt_checker_verify(o->obj, tok));
+	{
+		/* the token in a heap block of exactly its size: a read past its terminator is a sanitizer report */
+		char *exact = tok ? strdup(tok) : NULL;
+		ret = LIB(jwt_checker_verify(o->obj, exact));
+		free(exact);
+	}
 	json_object_set_new(r, "ret", json_integer(ret));
 	add_errmsg(r, o, 0);
 	json_object_set_new(r, "cbran", json_integer(o->cbran));
@@ -2065,10 +2109,22 @@ static void op_threads(json_t *op, json_t *unused)
 		ts[i].iters = jint(op, "iters", 10);
 		ts[i].skew = 0;
 	}
+	if (jint(op, "parfirst", 0)) {
+		/* the threads come FIRST (the process's very first signatures and verifications are concurrent: one-time
+		 * initialisations inside the library race here or nowhere), the sequential reference afterwards */
+		json_t **par = calloc(n, sizeof *par);
+		for (i = 0; i < n; i++) ts[i].skew = 0;
+		for (i = 0; i < n; i++) if (pthread_create(&th[i], NULL, thread_body, &ts[i])) die("pthread_create");
+		for (i = 0; i < n; i++) pthread_join(th[i], NULL);
+		for (i = 0; i < n; i++) { par[i] = ts[i].res; ts[i].res = NULL; }
+		for (i = 0; i < n; i++) { thread_body(&ts[i]); seq[i] = ts[i].res; ts[i].res = par[i]; }
+		free(par);
+	} else {
 	for (i = 0; i < n; i++) { thread_body(&ts[i]); seq[i] = ts[i].res; ts[i].res = NULL; }
 	for (i = 0; i < n; i++) ts[i].skew = jint(op, "skew", 1) ? (unsigned)(splitmix(&rs) % 3000) : 0;
 	for (i = 0; i < n; i++) if (pthread_create(&th[i], NULL, thread_body, &ts[i])) die("pthread_create");
 	for (i = 0; i < n; i++) pthread_join(th[i], NULL);
+	}
 	for (i = 0; i < n; i++) {
 		json_t *ev = json_pack("{s:s,s:I,s:s,s:i,s:o,s:o}", "e", "Thread", "t", (json_int_t)i, "alg", ts[i].alg, "det", ts[i].det,
 				       "seq", seq[i], "par", ts[i].res ? ts[i].res : json_array());
@@ -2415,18 +2471,28 @@ static void run_op(json_t *op)
 }
 
 /* ================================================================= main */
+/* the lowest free descriptor: it moves when a descriptor opened during the case is still open at its end */
+static int low_fd(void)
+{
+	int fd = dup(0);
+	if (fd >= 0) close(fd);
+	return fd;
+}
+
 static void run_case(json_t *c, long idx)
 {
 	size_t i; json_t *op;
 	json_t *first = json_array_get(c, 0);
 	const char *id = first && json_is_string(first) ? json_string_value(first) : "?";
 	json_t *ev;
+	int fd0 = low_fd();
 	cur_case = id; cur_op = -1;
 	case_rng = seed * 0x9e3779b97f4a7c15ULL ^ fnv(id);
 	drv_now = 1700000000;
 	if (track_alloc) jwt_set_alloc(drv_malloc, drv_free);
 	jwt_set_crypto_ops("openssl");
 	stale_turn = 0;
+	fill_turn = 0;
 	ev = json_pack("{s:s,s:s,s:I}", "e", "Case", "id", id, "n", (json_int_t)idx);
 	emit(ev); json_decref(ev);
 	alarm(call_timeout);
@@ -2441,6 +2507,7 @@ static void run_case(json_t *c, long idx)
 	/* restore process-wide state */
 	jwt_set_crypto_ops("openssl");
 	ev = json_pack("{s:s}", "e", "EndCase");
+	json_object_set_new(ev, "fd", json_integer(low_fd() - fd0));
 #ifdef DRV_ASAN
 	if (leak_every && (idx % leak_every) == leak_every - 1)
 		json_object_set_new(ev, "leak", json_integer(__lsan_do_recoverable_leak_check() ? 1 : 0));
@@ -2465,6 +2532,7 @@ static void run_case_fault(json_t *c, long idx)
 	jwt_set_crypto_ops("openssl");
 	jwt_set_alloc(drv_malloc, drv_free);
 	stale_turn = 0;
+	fill_turn = 0;
 	ev = json_pack("{s:s,s:s,s:I}", "e", "Case", "id", id, "n", (json_int_t)idx);
 	emit(ev); json_decref(ev);
 	fault_mode = 1; alloc_fail_at = -1; alloc_count = 0; alloc_failed = 0;
